@@ -12,12 +12,48 @@ PROP = "C02"
 DRIVERS = ["drv_clientsub"]
 LEAN_TARGETS = ["Pyrtma.Props.C02"]
 LEVEL = "proof"
-MATCHERS: Dict[str, Any] = {}
+
+
+def _f4(clause: str, case: Any) -> bool:
+    """C02-F4: a handshake answered later than `_wait_for_acknowledgement` waits (`connectLate`) leaves the object
+    connected and un-reset.  Signature: a life-cycle history, a `connectLate` at or before the failing call, the failing
+    clause is the agreement clause (the stale sets are reported, nothing is delivered)."""
+    if not clause.startswith("connected_reported_equals_delivered"):
+        return False
+    c = (case or {}).get("case") or {}
+    if not c.get("life"):
+        return False
+    try:
+        at = int(clause.split("op=")[1].split()[0])
+    except (IndexError, ValueError):
+        return False
+    # expand `sub reconnect` (two phases, one op) is one op for the driver too: indices are op indices
+    return any(op[0] == "connectLate" for op in c["ops"][:at + 1])
+
+
+MATCHERS: Dict[str, Any] = {"C02-F4": _f4}
+
+
+def _match(clause: str, case: Any):
+    """known_findings.json decides; the slice's own fragment is used until the coordinator has merged it"""
+    import json
+    fid = C.match_finding(PROP, clause, case, MATCHERS)
+    if fid:
+        return fid
+    frag = C.VERIF / "findings_fragments" / f"{PROP}.json"
+    if frag.exists():
+        known = {e["id"] for e in C.known_findings(PROP)}
+        for e in json.loads(frag.read_text()).get("findings", []):
+            if e.get("status") == "open" and e["id"] not in known and e["id"] in MATCHERS and MATCHERS[e["id"]](clause, case):
+                return e["id"]
+    return None
 TRUSTED = [
     "Lean 4.33.0 kernel", "axioms: propext, Classical.choice, Quot.sound only (audited by #print axioms)",
     "harness/client_corr.py: in-memory duplex connections, scripted select, frozen clock stand for socket/select/"
     "time inside pyrtma.manager and pyrtma.client; differential testing of Model/ClientSub.lean vs the real "
-    "Client API driving the real MessageManager.run()",
+    "Client API driving the real MessageManager.run(); for the life cycle also pyrtma.client.socket (a shim whose "
+    "sockets become in-memory connections on connect(); a connection can be cut: reads see FIN or RST, writes raise "
+    "ConnectionResetError) - differential testing of Model/ClientLife.lean",
 ]
 
 
@@ -26,7 +62,7 @@ def _work(chunk):
     out = []
     for cid, case in chunk:
         try:
-            out.append((cid, K.run_case(cid, case), None))
+            out.append((cid, (K.run_life_case if case.get("life") else K.run_case)(cid, case), None))
         except C.MachineryError as e:
             out.append((cid, None, f"MachineryError: {e}"))
         except BaseException as e:  # noqa: BLE001  (WouldBlock, or the manager crashed: reported as machinery)
@@ -75,6 +111,20 @@ def _feed(res: C.Result, cases: List[Any]):
                 k = l.split()[1]
                 ex.setdefault("ops", {}).setdefault(k, 0)
                 ex["ops"][k] += 1
+            elif l.startswith("LOP "):
+                t = l.split()
+                k = t[1] + (":" + t[2] if t[1] == "sub" else "")
+                ex.setdefault("life_ops", {}).setdefault(k, 0)
+                ex["life_ops"][k] += 1
+            elif l.startswith("LPH "):
+                t = l.split()
+                st = t[1].split(":")[0]
+                k = ("connected" if " C 1 " in l else "disconnected") + ":" + st
+                ex.setdefault("life_phase_status", {}).setdefault(k, 0)
+                ex["life_phase_status"][k] += 1
+                if " R - " not in l:
+                    ex.setdefault("handshakes", {}).setdefault("accepted" if st == "ok" else "refused", 0)
+                    ex["handshakes"]["accepted" if st == "ok" else "refused"] += 1
             elif l.startswith("PH "):
                 t = l.split()
                 st = t[1].split(":")[0]
@@ -87,15 +137,15 @@ def _feed(res: C.Result, cases: List[Any]):
         ex["generators"][tag] += 1
         jc = {"case": case, "protocol": blk}
         for d in r["corr"]:
-            res.corr_diffs.append({"name": "corr:M2/subscription", "diff": d[:1500], "case": jc})
+            res.corr_diffs.append({"name": "corr:M2/life-cycle" if case.get("life") else "corr:M2/subscription",
+                                   "diff": d[:1500], "case": jc})
         for v in r["props"].get(PROP, []):
             ex.setdefault("verdicts", {}).setdefault(v.split()[0], 0)
             ex["verdicts"][v.split()[0]] += 1
             if v.startswith("fail"):
                 cl = v[5:]
-                res.failures.append(C.Failure(clause=cl.split()[0], case=jc, detail=cl,
-                                              finding=C.match_finding(PROP, cl, jc, MATCHERS)))
-        if len(case["ops"]) >= 3 and tag in ("random", "seq3", "directed"):
+                res.failures.append(C.Failure(clause=cl.split()[0], case=jc, detail=cl, finding=_match(cl, jc)))
+        if len(case["ops"]) >= 3 and tag in ("random", "seq3", "directed", "life-random", "life-directed"):
             res.sample({"tag": tag, "protocol": blk[:14], "verdicts": r["props"]})
 
 
@@ -119,6 +169,13 @@ def cases_for(res: C.Result, deep: bool):
         add(c)
     for _ in range(6000 if deep else 1000):
         add(K.rand_case(rng, 30))
+    # the session life cycle: one Client object from its construction on (second layer of M2)
+    for c in K.life_directed():
+        add(c)
+    for c in K.life_exhaustive(3 if deep else 2):
+        add(c)
+    for _ in range(6000 if deep else 1200):
+        add(K.life_rand_case(rng, 25))
     return cases
 
 
@@ -130,7 +187,15 @@ def run(res: C.Result, deep: bool):
                 "duplicates; all sequences of <= %d operations with short argument lists; seeded random histories of "
                 "<= 30 operations over 7 types with ALL and duplicates mixed in; after every phase one probe per type "
                 "of the universe (incl. a never-mentioned type) is sent through the real manager; a case is "
-                "non-trivial when it has >= 2 operations" % (3 if deep else 2))
+                "non-trivial when it has >= 2 operations.  Session life cycle (one Client object from its constructor "
+                "on, real Client.connect / disconnect / read_message / send_signal on sockets made by a socket shim): 11 "
+                "directed histories; all sequences of <= %d operations over a 17-letter alphabet (connect with / without "
+                "allow_multiple, disconnect, connection lost on read / on send / before a subscription call, noticed by "
+                "the manager or not, the manager discovering dead connections, subscription calls) after 3 prefixes on 5 "
+                "set-ups (dynamic / static id, other modules holding ids, cursor at the wrap-around, every dynamic id "
+                "taken); seeded random histories of <= 25 operations with random other modules and cursor positions, "
+                "handshakes the manager answers too late included (open finding C02-F4)"
+                % (3 if deep else 2, 3 if deep else 2))
     res.assumptions.append("the manager is pumped (MessageManager.run() until idle) after every client phase: "
                            "control frames are processed before the next probe (no in-flight window is modelled)")
     for i in range(0, len(cases), 20000):
@@ -163,8 +228,12 @@ def replay(body: Dict[str, Any]) -> int:
         print("nothing replayable in this file")
         return 2
     case = jc["case"]
-    case = {"U": list(case["U"]), "ops": [(k, list(a)) for k, a in case["ops"]]}
-    blk = K.run_case("replay", case)
+    if case.get("life"):
+        case = dict(case, ops=[tuple(o) for o in case["ops"]], others=[tuple(o) for o in case.get("others", [])])
+        blk = K.run_life_case("replay", case)
+    else:
+        case = {"U": list(case["U"]), "ops": [(k, list(a)) for k, a in case["ops"]]}
+        blk = K.run_case("replay", case)
     out = C.run_driver("clientsub", blk)
     print("\n".join(blk))
     print("\n".join(out))
